@@ -47,12 +47,83 @@ def work(tier, seed):
     for k, m in LARGE:
         for bl in ot.order_types(2, 2, 2, 2, tie_free=True)[:3]:
             items.append({"blocks": [list(x) for x in bl], "grid": "irregular", "large": [k, m]})
+    # counts beyond 2^31 / 2^32 cannot be materialised in memory: the materialised data set is represented by counting
+    for k, m in HUGE:
+        for bl in ot.order_types(2, 2, 1, 1):
+            items.append({"blocks": [list(x) for x in bl], "grid": "irregular", "huge": [k, m]})
     return items
+
+
+HUGE = [(3_000_000_000, 2), (1, 5_000_000_000), (2**31 - 2, 2**31 - 1)]
+
+
+def _run_huge(item, ctx, seed):
+    """The materialised data set holds k (m) extreme scores beyond every threshold asked: its confusion matrix is
+    obtained by counting, its AUC from the exact pair count / step area (mc.refs), both over exact integers."""
+    from fractions import Fraction as Fr
+
+    from score_analysis import Scores
+
+    from mc import refs
+
+    blocks = [tuple(x) for x in item["blocks"]]
+    pos, neg, vals = ot.concretise(blocks, item["grid"], seed)
+    T = [t for t in ot.threshold_alphabet(vals) if math.isfinite(t)]
+    k, m = item["huge"]
+    cross = any(a > 0 and c > 0 for a, c in blocks)
+    for cfg in ot.CFGS:
+        sc, ec = cfg
+        case = {"blocks": item["blocks"], "grid": item["grid"], "pos": pos, "neg": neg, "cfg": cfg, "easy": [k, m],
+                "materialised": "by counting"}
+        ok, sv = guarded(ctx, "construct-virtual", case, Scores, pos, neg, nb_easy_pos=k, nb_easy_neg=m, score_class=sc, equal_class=ec)
+        if not ok:
+            continue
+        ctx.state()
+        ok, mv = guarded(ctx, "cm", case, lambda: sv.cm(np.array(T)).matrix)
+        ctx.tick(len(T))
+        ctx.nontrivial(len(T))
+        if ok:
+            want = [refs.ref_cm(pos, neg, t, sc, ec, k, m) for t in T]
+            ctx.outcome((cfg, k, m, str(mv.tolist())))
+            if mv.tolist() != want:
+                j = next(i for i in range(len(T)) if mv[i].tolist() != want[i])
+                ctx.fail("cm-virtual-equals-materialised", dict(case, threshold=T[j]), observed=mv[j], expected=want[j])
+            for t in T[:: max(1, len(T) // 4)]:
+                ok, ms = guarded(ctx, "cm-scalar", dict(case, threshold=t), lambda: sv.cm(t).matrix)
+                ctx.tick()
+                if ok and ms.tolist() != refs.ref_cm(pos, neg, t, sc, ec, k, m):
+                    ctx.fail("cm-virtual-equals-materialised", dict(case, threshold=t, scalar=True), observed=ms,
+                             expected=refs.ref_cm(pos, neg, t, sc, ec, k, m))
+            for name in ("tpr", "fnr", "tnr", "fpr", "topr", "tonr"):
+                ok, rv = guarded(ctx, "rate", dict(case, rate=name), lambda: np.asarray(getattr(sv, name)(np.array(T)), dtype=float))
+                ctx.tick(len(T))
+                if ok:
+                    for j, t in enumerate(T):
+                        w = refs.ref_rates(want[j])[name]
+                        if not refs.same_float(float(rv[j]), w):
+                            ctx.fail("rate-virtual-equals-materialised", dict(case, rate=name, threshold=t), observed=float(rv[j]),
+                                     expected=None if w is None else float(w))
+                            break
+        ok, a = guarded(ctx, "auc", case, lambda: float(sv.auc()))
+        ctx.tick()
+        wa = float(refs.ref_mann_whitney(pos, neg, sc, k, m))
+        if ok and not abs(a - wa) <= 1e-9:
+            ctx.fail("auc-virtual-equals-materialised", dict(case, lower=0.0, upper=1.0), observed=a, expected=wa)
+        if not cross:
+            for lo_i, hi_i in ((Fr(0), Fr(1, 2)), (Fr(1, 4), Fr(3, 4)), (Fr(1, 2), Fr(1))):
+                ok, a = guarded(ctx, "auc", dict(case, lower=str(lo_i), upper=str(hi_i)), lambda: float(sv.auc(float(lo_i), float(hi_i))))
+                ctx.tick()
+                wa = float(refs.ref_step_area(pos, neg, sc, k, m, lo_i, hi_i))
+                if ok and not abs(a - wa) <= 1e-9:
+                    ctx.fail("auc-virtual-equals-materialised", dict(case, lower=str(lo_i), upper=str(hi_i)), observed=a, expected=wa)
+    ctx.sample({"blocks": item["blocks"], "huge": item["huge"]})
 
 
 def run(item, ctx, tier, seed):
     from score_analysis import Scores
 
+    if "huge" in item:
+        return _run_huge(item, ctx, seed)
     b = bounds(tier)
     blocks = [tuple(x) for x in item["blocks"]]
     pos, neg, vals = ot.concretise(blocks, item["grid"], seed)
